@@ -38,6 +38,7 @@ impl Prop for C04Prop {
             keyings: 1,
             boundary_per_mille: 0,
             huge_one_in: 1500,
+            hub_one_in: 0,
         }
         .gen("C04", seed, idx)
     }
